@@ -581,7 +581,7 @@ _orig_check_c03 = check_c03
           "body once); B2 the parent->child construct relation the writer can emit is included, case-insensitively, in the relation the reader "
           "has cases for (extracted from expect/construct_is/parse_construct), and every direction / cell-type / view-type word written is one "
           "the reader dispatches on; B3 the delimiters used to build per-bit net identifiers and names equal the ones the reader splits on; "
-          "B4 every hand-maintained position counter whose value is written (member index, bit index) advances exactly once per element; "
+          "B4 every hand-maintained position counter whose value is written (member index, bit index) advances exactly once per element, and the integer written inside (member <port> i) is a position in the port's pin list (no base-index term); "
           "B5 the reader consumes (pop) every scratch key it parks in the element under construction, so a name read for one construct is never handed to the next; B6 cells and libraries are written after what they depend on: the depth-first dependency sort (recognised by shape, as a loop or as a generator) pushes a dependency unless it was already written, marks a node written only where it emits it, and emits every node it pops.")
 def check_c03_all(ctx, R):
     _orig_check_c03(ctx, R)
